@@ -1,6 +1,6 @@
 """C09 — Every accepted task runs exactly once before pool shutdown completes (DESIGN.md §2 C09)."""
 from .. import access
-from ..cfg import search, witness_str, elem_dominates
+from ..cfg import search, witness_str, elem_dominates, may_throw_elem
 from ..expr import show, walk, last, field_of, strip_wrappers, strip_casts, short, const_value, access_path
 from ..facts import AnalysisBroken
 from ..predabs import Vocab, PredAbs, A, Not, And, Or, T, F, translate, total, known_when
@@ -473,7 +473,17 @@ def r3(ctx, r):
         if e.kind == "stmt" and e.node.get("k") == "decl" and any(v["d"] == td for v in e.node["vars"]):
             return [("set", "have", False), ("set", "ran", False), ("set", "twice", False)]
         return None
-    pa = PredAbs(w, vocab, leaf, eff, init=And(Not(A("have")), Not(A("ran")), Not(A("twice"))), eh_after=True)
+    # a call of a local lambda whose body contains nothing that can throw (`validateCanary()`: a compare and std::abort) raises no
+    # exception edge; cfg.may_throw_elem does not look into lambdas, so such elements are taken out of their try for this flow only
+    quiet = [e for e in w.stmts() if e.try_id and local_lambda_call(w, e.node) is not None and not any(may_throw_elem(x) for x in local_lambda_call(w, e.node)[0].stmts())]
+    saved = [(e, e.try_id) for e in quiet]
+    try:
+        for e in quiet:
+            e.try_id = 0
+        pa = PredAbs(w, vocab, leaf, eff, init=And(Not(A("have")), Not(A("ran")), Not(A("twice"))), eh_after=True)
+    finally:
+        for (e, t) in saved:
+            e.try_id = t
     # at the start of the next iteration (the decl of `task`) and at every return: a dequeued task ran exactly once
     goal = Or(Not(A("have")), And(A("ran"), Not(A("twice"))))
     heads = [e for e in w.stmts() if e.node.get("k") == "decl" and any(v["d"] == td for v in e.node["vars"])]
@@ -616,7 +626,18 @@ def r5(ctx, r):
         return None
     pa = PredAbs(p4, vocab, leaf, lambda e: None)
     r.instance()
-    r.expect(bool(joins) and all(pa.entails(d, A("detached_mode")) for d in dets), p4, dets[0] if dets else None, "threads detached", "phase 4 detaches workers outside DETACHED mode instead of joining them: "
+    # a detach is reachable only over an edge that says the mode is DETACHED: the true edge of `== DETACHED`, the false edge of
+    # `!= DETACHED`, or the `case DETACHED` edge of a switch — with those edges removed no detach may remain reachable
+    def not_detached_edge(b, si):
+        lab = b.edge_label(si)
+        if isinstance(lab, tuple) and lab[0] == "case":
+            return not any(x.get("k") == "enum" and last(x["n"]) == "DETACHED" for x in walk(lab[1] or {}))
+        if lab in (True, False) and b.cond is not None:
+            fm = translate(b.cond, leaf)
+            if fm is not None and total(fm) is not None:
+                return not (total(fm) == (A("detached_mode") if lab else Not(A("detached_mode"))))
+        return True
+    r.expect(bool(joins) and all(search(p4, ("entry",), lambda x, d=d: x is d, edge_ok=not_detached_edge, eh=False) is None for d in dets), p4, dets[0] if dets else None, "threads detached", "phase 4 detaches workers outside DETACHED mode instead of joining them: "
              "destruction returns while tasks still run", okdesc="phase 4: join every joinable worker (detach only in DETACHED mode)")
     # the loop ends only when no joinable entry is left: at the function's exit the most recent look at the worker map (critical
     # section over `_threads`) took nothing out of it.  Ghost `took`: cleared where _mutex is acquired, set where an entry is erased
@@ -1169,39 +1190,63 @@ def r10(ctx, r):
                 lhs, rhs = rhs, lhs
             if op == "!=":
                 op = "<"
-            # the counter: a local initialised to 0 and incremented once per iteration
-            ctr_ok = op == "<" and lhs.get("k") == "var" and any(st.node.get("k") == "decl" and any(v["d"] == lhs.get("d") and const_value(strip_casts(v.get("init") or {})) == 0 for v in st.node["vars"]) for st in f.stmts()) \
-                and sum(1 for st in f.stmts() if st.node.get("k") == "un" and st.node.get("op") in ("++", "pre++", "post++") and strip_casts(st.node["v"]).get("d") == lhs.get("d")) == 1
-            if not ctr_ok:
-                raise AnalysisBroken("%s: spawn loop `%s` is not the counting form `i = 0; i < N; ++i`" % (short(f.name), show(loops[0].cond)))
-            bound = rhs
-            if bound.get("k") == "var":
-                ds = [v for st in f.stmts() if st.node.get("k") == "decl" for v in st.node["vars"] if v["d"] == bound.get("d")]
-                wr = [st for st in f.stmts() if st.node.get("k") in ("assign", "bin", "un") and st.node.get("k") != "decl" and strip_casts(st.node.get("lhs") or st.node.get("v") or {}).get("d") == bound.get("d") and (st.node.get("k") != "bin" or st.node.get("op", "").endswith("=") and st.node["op"] not in ("==", "!=", "<=", ">="))]
-                if len(ds) != 1 or ds[0].get("init") is None or wr:
-                    raise AnalysisBroken("%s: the loop bound %s is not a once-initialised local" % (short(f.name), show(bound)))
-                bound = ds[0]["init"]
-            try:
-                tb = _subst_members(bound, inits, {SCALE: "scaling"})
-                tm = _subst_members({"k": "member", "n": MAXF}, inits, {})
-                names = params + ["scaling"]
-                fbnd, _, code = finite.compile_expr(tb, names)
-                fmax, _, _ = finite.compile_expr(tm, names)
-            except finite.NotPure as ex:
-                raise AnalysisBroken("%s: spawn bound `%s` is outside the evaluable fragment (%s)" % (short(f.name), show(bound)[:80], ex))
-            import itertools
-            dom = (0, 1, 2, 3, 5, 2 ** 64 - 1)
-            bad = None
-            for vals in itertools.product(*([dom] * len(params) + [(0, 1)])):
-                if fbnd(*vals) > fmax(*vals):
-                    bad = dict(zip(names, vals))
-                    bad["workers"], bad["max"] = fbnd(*vals), fmax(*vals)
-                    break
-            r.expect(bad is None, f, e, "initial workers above the maximum: %s" % short(f.name),
-                     "%s starts `%s` workers without testing the cap; with the constructor's initialisers that is %s workers for a maximum of %s (%s): the pool runs more "
-                     "threads than its configured maximum from the first moment it accepts work" % (short(f.name), show(bound)[:70], bad and bad["workers"], bad and bad["max"],
-                                                                                                  ", ".join("%s=%s" % kv for kv in (bad or {}).items() if kv[0] in params)),
-                     okdesc="%s: `%s` <= _maxSize for all %d sampled constructor arguments (exact evaluation of the initialisers)" % (short(f.name), show(bound)[:50], len(dom) ** len(params) * 2))
+            # count-down form `for (r = N; r > 0; --r)` (also `r != 0`): the loop runs as often as the value the counter holds when the
+            # loop is reached; every definition of the counter outside the loop (initialiser, plain assignments on any branch) is
+            # a possible value, so each of them is evaluated as a bound
+            zero_side = [x for x in (lhs, rhs) if const_value(x) == 0]
+            cv = lhs if (op in ("!=",) and const_value(rhs) == 0) else rhs if (op == "<" and const_value(lhs) == 0) or (op == "!=" and const_value(lhs) == 0) else None
+            bounds = None
+            if cv is not None and zero_side and cv.get("k") == "var" and cv.get("parm") is None:
+                body0 = [sx for i, sx in enumerate(loops[0].succs) if loops[0].edge_label(i) is True][0]
+                decs = [st for st in f.stmts() if st.node.get("k") == "un" and "--" in st.node.get("op", "") and strip_casts(st.node["v"]).get("d") == cv["d"]]
+                defs, other = [], []
+                for st in f.stmts():
+                    nn = st.node
+                    if nn.get("k") == "decl":
+                        defs += [(st, v.get("init")) for v in nn["vars"] if v["d"] == cv["d"]]
+                    elif nn.get("k") == "bin" and nn.get("op", "").endswith("=") and nn["op"] not in ("==", "!=", "<=", ">=") and strip_casts(nn["lhs"]).get("k") == "var" and strip_casts(nn["lhs"]).get("d") == cv["d"]:
+                        (defs if nn["op"] == "=" else other).append((st, nn["rhs"]))
+                    elif nn.get("k") == "un" and ("++" in nn.get("op", "") or nn.get("op") == "&") and strip_casts(nn["v"]).get("d") == cv["d"]:
+                        other.append((st, None))
+                in_loop = lambda st: st.block is loops[0] or search(f, ("block", body0), lambda x, st=st: x is st, edge_ok=lambda bb, si: bb is not loops[0]) is not None
+                if len(decs) == 1 and in_loop(decs[0]) and not other and defs and all(v is not None and not in_loop(st) for (st, v) in defs):
+                    bounds = [v for (st, v) in defs]
+            if bounds is None:
+                # the counter: a local initialised to 0 and incremented once per iteration
+                ctr_ok = op == "<" and lhs.get("k") == "var" and any(st.node.get("k") == "decl" and any(v["d"] == lhs.get("d") and const_value(strip_casts(v.get("init") or {})) == 0 for v in st.node["vars"]) for st in f.stmts()) \
+                    and sum(1 for st in f.stmts() if st.node.get("k") == "un" and st.node.get("op") in ("++", "pre++", "post++") and strip_casts(st.node["v"]).get("d") == lhs.get("d")) == 1
+                if not ctr_ok:
+                    raise AnalysisBroken("%s: spawn loop `%s` is neither the counting form `i = 0; i < N; ++i` nor the count-down form `r = N; r > 0; --r`" % (short(f.name), show(loops[0].cond)))
+                bound = rhs
+                if bound.get("k") == "var":
+                    ds = [v for st in f.stmts() if st.node.get("k") == "decl" for v in st.node["vars"] if v["d"] == bound.get("d")]
+                    wr = [st for st in f.stmts() if st.node.get("k") in ("assign", "bin", "un") and st.node.get("k") != "decl" and strip_casts(st.node.get("lhs") or st.node.get("v") or {}).get("d") == bound.get("d") and (st.node.get("k") != "bin" or st.node.get("op", "").endswith("=") and st.node["op"] not in ("==", "!=", "<=", ">="))]
+                    if len(ds) != 1 or ds[0].get("init") is None or wr:
+                        raise AnalysisBroken("%s: the loop bound %s is not a once-initialised local" % (short(f.name), show(bound)))
+                    bound = ds[0]["init"]
+                bounds = [bound]
+            for bound in bounds:
+                try:
+                    tb = _subst_members(bound, inits, {SCALE: "scaling"})
+                    tm = _subst_members({"k": "member", "n": MAXF}, inits, {})
+                    names = params + ["scaling"]
+                    fbnd, _, code = finite.compile_expr(tb, names)
+                    fmax, _, _ = finite.compile_expr(tm, names)
+                except finite.NotPure as ex:
+                    raise AnalysisBroken("%s: spawn bound `%s` is outside the evaluable fragment (%s)" % (short(f.name), show(bound)[:80], ex))
+                import itertools
+                dom = (0, 1, 2, 3, 5, 2 ** 64 - 1)
+                bad = None
+                for vals in itertools.product(*([dom] * len(params) + [(0, 1)])):
+                    if fbnd(*vals) > fmax(*vals):
+                        bad = dict(zip(names, vals))
+                        bad["workers"], bad["max"] = fbnd(*vals), fmax(*vals)
+                        break
+                r.expect(bad is None, f, e, "initial workers above the maximum: %s" % short(f.name),
+                         "%s starts `%s` workers without testing the cap; with the constructor's initialisers that is %s workers for a maximum of %s (%s): the pool runs more "
+                         "threads than its configured maximum from the first moment it accepts work" % (short(f.name), show(bound)[:70], bad and bad["workers"], bad and bad["max"],
+                                                                                                      ", ".join("%s=%s" % kv for kv in (bad or {}).items() if kv[0] in params)),
+                         okdesc="%s: `%s` <= _maxSize for all %d sampled constructor arguments (exact evaluation of the initialisers)" % (short(f.name), show(bound)[:50], len(dom) ** len(params) * 2))
     if n < 2:
         raise AnalysisBroken("unconditional spawn loops: %d found (constructor and start() expected)" % n)
     # the members keep that value
